@@ -152,7 +152,8 @@ def run(R, tier):
             R.anchor_lost("R20.1", "expansion of derive(ScpiEnum) for %s" % self_ty)
             continue
         variants = {v["name"]: (int(v["discr"]), len(v["fields"])) for v in adt["variants"]}
-        eng = fdai.Engine(prog, u, inline=lambda n, r: False, models={})
+        # (the iterator models let a table of (mnemonic, constructor) pairs searched with `find` read like the guard chain)
+        eng = fdai.Engine(prog, u, inline=lambda n, r: False, models=dict(M.FOLD_MODELS), max_paths=400)
         # ---- from_mnemonic: guard chain ---------------------------------------------------------------
         res = eng.run(fm, [SymV("s", "s")])
         table = {}
